@@ -359,6 +359,60 @@ def lattice_cases(rng, layout_name, real=None, full=False):
     return out
 
 # --------------------------------------------------------------------------------------
+# sequences: several blocks on ONE GainCalc instance (render must be a function of the block alone)
+
+_PRISTINE = {}
+
+
+def pristine_gain_calc(layout_name):
+    """A GainCalc that is never rendered on; callers deep-copy it (1-2 ms) to get fresh instances."""
+    from ear.core.objectbased.gain_calc import GainCalc
+
+    if layout_name not in _PRISTINE:
+        _PRISTINE[layout_name] = GainCalc(build_layout(layout_name))
+    return _PRISTINE[layout_name]
+
+
+SEQ_ZONES = [
+    [["p", 0.0, 0.0, -180.0, 180.0]],                       # the whole mid layer
+    [["p", -90.0, 90.0, 30.0, 180.0]],                      # the left side
+    [["p", -90.0, 90.0, -110.0, -30.0]],                    # right side speakers (Cartesian path extends along rows)
+    [["c", -1.0, -1.0, -1.0, 1.0, 0.0, 1.0]],               # the back half
+    [["c", 0.5, -1.0, -1.0, 1.0, 1.0, 1.0]],                # right wall
+    [["c", -1.0, -1.0, -1.0, -0.5, 1.0, 1.0], ["p", 30.0, 90.0, -180.0, 180.0]],   # left wall + upper layer
+    [["p", -90.0, 90.0, -180.0, 180.0]],                    # everything (both paths fall back to no exclusion)
+    [["p", 0.0, 0.0, -30.0, 30.0]],                         # front three
+    [["p", -90.0, 90.0, 90.0, 90.0], ["p", -90.0, 90.0, -90.0, -90.0]],           # exactly the side speakers
+]
+
+
+def gen_sequence(rng, layout_name):
+    """2-6 blocks for one shared instance: alternating polar/Cartesian, extent on/off, lock on/off, divergence on/off,
+    with one zone list recurring across most blocks (and an occasional different or empty one)."""
+    k = rng.randint(2, 6)
+    zones = rng.choice(SEQ_ZONES) if rng.random() < 0.8 else gen_case(rng, layout_name)["zones"]
+    other = rng.choice(SEQ_ZONES)
+    start_cart = rng.random() < 0.5
+    seq = []
+    for i in range(k):
+        c = gen_case(rng, layout_name, boundary=(i % 2 == 0))
+        want_cart = (i % 2 == 0) == start_cart if rng.random() < 0.85 else rng.random() < 0.5
+        if c["cartesian"] != want_cart:
+            for _ in range(20):
+                c = gen_case(rng, layout_name, boundary=(i % 2 == 0))
+                if c["cartesian"] == want_cart:
+                    break
+        r = rng.random()
+        c["zones"] = zones if r < 0.75 else other if r < 0.9 else []
+        if rng.random() < 0.5:
+            c["width"] = c["height"] = c["depth"] = 0.0
+        if rng.random() < 0.3 and c["lock"] is None:
+            c["lock"] = [rng.choice([None, 0.5, 1.0])]
+        c["offset"] = None  # keep every block inside the quantifier so that the sequence is rendered in full
+        seq.append(c)
+    return seq
+
+# --------------------------------------------------------------------------------------
 # admissible real-position layouts (thorough tier)
 
 
